@@ -13,14 +13,16 @@ Inductive fault :=
 | F_truncated_msg.              (* length byte announces more than the packet holds: uninitialised tail *)
 
 (* ---- byte-level receiver state ---- *)
-Record rxs := { r_synced : bool; r_buf : list N; r_esc : bool; r_crc : N }.
-Definition rx_init : rxs := {| r_synced := false; r_buf := []; r_esc := false; r_crc := 0 |}.
-Definition rx_fresh : rxs := {| r_synced := true; r_buf := []; r_esc := false; r_crc := 0 |}.
+(* r_ovf: more than rx_buf_size unescaped bytes since the last delimiter (the packet will be dropped) *)
+Record rxs := { r_synced : bool; r_buf : list N; r_esc : bool; r_crc : N; r_ovf : bool }.
+Definition rx_init : rxs := {| r_synced := false; r_buf := []; r_esc := false; r_crc := 0; r_ovf := false |}.
+Definition rx_fresh : rxs := {| r_synced := true; r_buf := []; r_esc := false; r_crc := 0; r_ovf := false |}.
 
 Inductive rx_out :=
 | RxNone
 | RxPacket (payload : list N)     (* CRC good: buffer without the CRC byte goes to split_packet *)
 | RxBadCrc
+| RxOversize                      (* longer than the receive buffer: ignored *)
 | RxFault (f : fault).
 
 Definition rx_byte (s : rxs) (b : N) : rxs * rx_out :=
@@ -29,14 +31,16 @@ Definition rx_byte (s : rxs) (b : N) : rxs * rx_out :=
   else if b =? pkt_magic then
     match r_buf s with
     | [] => (rx_fresh, RxNone)       (* also cancels a pending escape *)
-    | _ => (rx_fresh, if r_crc s =? 0 then RxPacket (removelast (r_buf s)) else RxBadCrc)
+    | _ => (rx_fresh, if r_ovf s then RxOversize
+                      else if r_crc s =? 0 then RxPacket (removelast (r_buf s)) else RxBadCrc)
     end
   else if b =? pkt_escape then
-    ({| r_synced := true; r_buf := r_buf s; r_esc := true; r_crc := r_crc s |}, RxNone)
+    ({| r_synced := true; r_buf := r_buf s; r_esc := true; r_crc := r_crc s; r_ovf := r_ovf s |}, RxNone)
   else
     let d := if r_esc s then N.lxor b 32 else b in
-    if rx_buf_size <=? nlen (r_buf s) then (s, RxFault F_rx_buffer_overflow)
-    else ({| r_synced := true; r_buf := r_buf s ++ [d]; r_esc := false; r_crc := crc_step (r_crc s) d |}, RxNone).
+    if rx_buf_size <=? nlen (r_buf s)
+    then ({| r_synced := true; r_buf := r_buf s; r_esc := false; r_crc := r_crc s; r_ovf := true |}, RxNone)
+    else ({| r_synced := true; r_buf := r_buf s ++ [d]; r_esc := false; r_crc := crc_step (r_crc s) d; r_ovf := r_ovf s |}, RxNone).
 
 (* ---- bidib_split_packet: cut the payload into message copies ---- *)
 (* each piece is (allocated length, initialised bytes) *)
@@ -66,6 +70,20 @@ Fixpoint zero_from (fuel : nat) (m : list N) (i : nat) (site : N) : fault + nat 
   end.
 
 Record rmsg := { m_addr : list N; m_seq : N; m_type : N; m_raw : list N }.
+
+(* the check bidib_split_packet applies to the copy (alloc bytes allocated, m the j bytes copied):
+   complete, address stack ends within four bytes, sequence number and type inside the message *)
+Fixpoint addr_end (fuel : nat) (m : list N) (i : nat) : nat :=
+  match fuel with
+  | O => i
+  | S f => match nth_error m i with
+           | Some v => if v =? 0 then i else addr_end f m (S i)
+           | None => i
+           end
+  end.
+Definition valid_msg (alloc : N) (m : list N) : bool :=
+  let e := addr_end (length m) m 1 in
+  (nlen m =? alloc) && (e <=? 4)%nat && (e + 2 <? length m)%nat.
 
 Definition parse_msg (alloc : N) (m : list N) : fault + rmsg :=
   if negb (nlen m =? alloc) then inl F_truncated_msg else
@@ -99,22 +117,25 @@ Definition first_data_index (m : list N) : option nat :=
   end.
 
 (* all messages of one good packet, or the first fault *)
-Fixpoint parse_all (ps : list (N * list N)) : list rmsg * option fault :=
+Inductive stop := StopFault (f : fault) | StopMalformed.
+Fixpoint parse_all (ps : list (N * list N)) : list rmsg * option stop :=
   match ps with
   | [] => ([], None)
   | (a, m) :: r =>
-      match parse_msg a m with
-      | inl f => ([], Some f)
-      | inr x => let '(xs, f) := parse_all r in (x :: xs, f)
-      end
+      if valid_msg a m then
+        match parse_msg a m with
+        | inl f => ([], Some (StopFault f))
+        | inr x => let '(xs, f) := parse_all r in (x :: xs, f)
+        end
+      else ([], Some StopMalformed)     (* the rest of the packet is ignored *)
   end.
 
 (* ---- stream level: delivered messages in order (for C02) ---- *)
-Inductive rx_item := Delivered (m : rmsg) | Dropped | Faulted (f : fault).
+Inductive rx_item := Delivered (m : rmsg) | Dropped | Malformed | Faulted (f : fault).
 
 Definition deliver_packet (p : list N) : list rx_item :=
   let '(ms, f) := parse_all (split_packet (length p) p) in
-  map Delivered ms ++ match f with Some x => [Faulted x] | None => [] end.
+  map Delivered ms ++ match f with Some (StopFault x) => [Faulted x] | Some StopMalformed => [Malformed] | None => [] end.
 
 Fixpoint rx_run (s : rxs) (bytes : list N) : rxs * list rx_item :=
   match bytes with
@@ -125,6 +146,7 @@ Fixpoint rx_run (s : rxs) (bytes : list N) : rxs * list rx_item :=
                   | RxNone => []
                   | RxPacket p => deliver_packet p
                   | RxBadCrc => [Dropped]
+                  | RxOversize => [Dropped]
                   | RxFault f => [Faulted f]
                   end in
       let '(s2, rest) := rx_run s1 r in (s2, here ++ rest)
